@@ -201,13 +201,17 @@ func min(a, b int) int {
 }
 
 // execChild runs the case in a child process. A child that does not come back within 120 s is asked for
-// its goroutine stacks (kept in a file) and the case is run ONCE more: a hang that shows again is reported
-// as a crash of the receiver, one that does not (seen about once in 1500 hist cases on a heavily loaded
-// machine, never reproduced on replay) is not attributed to the code.
+// its goroutine stacks (kept in a file) and reported as a crash of the receiver — like every other failure
+// only when it shows again on the second run (seen about once in 1500 hist cases on a heavily loaded
+// machine, never reproduced on replay).
 func execChild(line string, w []string) (res h.Result) {
 	res = execChildOnce(line, w)
-	if res.Impl == "crash" && strings.Contains(res.Oracle, "timeout (goroutine dump") {
-		fmt.Fprintln(os.Stderr, "c16: case timed out, running it once more:", line, "|", res.Oracle)
+	// every verdict of these cases involves waiting for something on real sockets: before a failure is
+	// reported the case is run once more, alone; only a failure that shows again is reported (a deterministic
+	// one always does). The replay of the known finding is exempt (it is expected).
+	if res.Oracle != "" && !strings.HasPrefix(res.Oracle, "gcm-nonce-reuse-forgery") {
+		fmt.Fprintln(os.Stderr, "c16: running the case once more before reporting:", line, "|", res.Oracle)
+		time.Sleep(300 * time.Millisecond)
 		res = execChildOnce(line, w)
 	}
 	return
@@ -886,6 +890,18 @@ func execMitm(msgsS, opsS string) (res h.Result) {
 	// rejected frames no longer stall the connection: unless the framing itself was damaged the
 	// last message must come out (event-driven wait); otherwise wait until nothing arrives any more
 	certain := !framingDamage && stuck == ""
+	if certain && altered[sentinel] {
+		// the sentinel's own frame was altered: it will not come out. Wait (event-driven) for the last
+		// message whose frame was left alone, then only until nothing arrives any more
+		for j := sentinel - 1; j >= 0; j-- {
+			if !altered[j] {
+				tj, _ := idxOf(sent[j])
+				recv.waitFor(tj, j, true)
+				break
+			}
+		}
+		certain = false
+	}
 	back := recv.waitFor(0, sentinel, certain)
 	alive := recv.alive()
 	aAlive := arecv.alive()
